@@ -163,7 +163,7 @@ const FUNCS: &[&str] = &[
 ];
 const NAMES: &[&str] = &[
     "TAXES2021", "rate_2020", "Q1.2021", "XFE123", "ZZZ99999", "A1048577", "A0", "tax", "données", "日本", "Größe2", "_x1",
-    "A1B", "R1C1", "1E5", "2A1", "TAX_2021", "x", "é1", "A1é", "ABCD1", "A12345678", "$A", "A$", "$1", "A$$1", "$$A1", "TRUE",
+    "A1B", "R1C1", "1E5", "2A1", "A00000001", "ABCD01", "A1_", "A.1", "TAX_2021", "x", "é1", "A1é", "ABCD1", "A12345678", "$A", "A$", "$1", "A$$1", "$$A1", "TRUE",
 ];
 const SHEETS_PLAIN: &[&str] = &["Sheet1", "AB1", "Données", "Feuil2", "X1", "data", "A1", "S_1", "表1"];
 const SHEETS_QUOTED: &[&str] = &["My Sheet1", "A1", "B2:C3", "a\"b", "Feuille d été", "X+1", "(A1)", "", "2021", "LOG10(A1)"];
@@ -443,7 +443,7 @@ fn run_raw(s: &str, dr: i64, dc: i64, drv: &mut Driver) -> (String, String) {
 
 const RAW_PIECES: &[&str] = &[
     "A1", "$A$1", "$", "A", "1", "é", "\"", "'", "!", "(", ")", ":", " ", "+", "XFD", "1048576", "1048577", "XFE", "LOG10", ".", "_", "0", "a1", "Z", "$B", "$2",
-    "日", ",", "A01", "AAAA1", "A12345678", "#REF!", "[1]", "\u{a0}", "×",
+    "日", ",", "A01", "AAAA1", "A12345678", "#REF!", "[1]", "\u{a0}", "×", "0000000", "00000001", "AAA", "a", "$$",
 ];
 
 // ------------------------------------------------------------------------------------------------
@@ -909,10 +909,30 @@ fn gen_odd_file(rng: &mut Rng) -> Vec<Item> {
             }
         }
     };
-    match rng.below(5) {
+    match rng.below(6) {
         0 => {
             let p = pos_free(&items, rng);
             items.push(Item::Child { r: p.0, c: p.1, si: rng.below(8) as u32 });
+        }
+        5 => {
+            // a cell naming a group from just outside the group's declared range, after the master
+            let masters: Vec<(u32, (u32, u32, u32, u32), (u32, u32))> =
+                items.iter().filter_map(|i| if let Item::Master { r, c, si, rect, .. } = i { Some((*si, *rect, (*r, *c))) } else { None }).collect();
+            if let Some((si, rect, m)) = masters.get(rng.below(masters.len().max(1) as u64) as usize).copied() {
+                let cand = [
+                    (rect.2 + 1, rect.1),
+                    (rect.2 + 1, rect.3),
+                    (rect.2, rect.3 + 1),
+                    (rect.0, rect.3 + 1),
+                    (rect.2, rect.1.saturating_sub(1)),
+                    (rect.2 + 1, rect.3 + 1),
+                    (m.0, rect.3 + 1),
+                ];
+                let p = *rng.pick(&cand);
+                if p > m && p.0 < 1_048_576 && p.1 < 16_384 && items.iter().all(|i| i.pos() != p) {
+                    items.push(Item::Child { r: p.0, c: p.1, si });
+                }
+            }
         }
         1 => {
             let p = pos_free(&items, rng);
